@@ -22,12 +22,13 @@ def run(cmd, cwd=None, timeout=1800):
 
 def main():
     seed, name = sys.argv[1], sys.argv[2]
-    props, tier = None, 'quick'
+    props, tier, race = None, 'quick', ''
     args = sys.argv[3:]
     while args:
         a = args.pop(0)
         if a == '--props': props = args.pop(0).split(',')
         elif a == '--tier': tier = args.pop(0)
+        elif a == '--race': race = '-race '
     out = os.path.join(seed, 'out')
     meta = json.load(open(os.path.join(out, 'meta.json')))
     target = meta.get('property')
@@ -36,7 +37,7 @@ def main():
     demo = os.path.join(out, 'demo_test.go')
     demo_dir = meta.get('demo_package_dir', '.') or '.'
     rec = {'property': target, 'summary': meta.get('summary'), 'needs': meta.get('needs'), 'files': meta.get('files'),
-           'origin': 'independent sub-agent given only the property text and a scratch worktree', 'ran': []}
+           'origin': 'independent sub-agent given only the property text and a scratch worktree', 'ran': [], 'demo_cmd': 'go test ' + race + '-vet=off -count=1 -run TestSeededDemo . (demo_test.go copied into ' + demo_dir + ')'}
 
     # 1. confirmation in a scratch worktree
     wt = '/tmp/seedeval_wt'
@@ -60,11 +61,11 @@ def main():
         rec['suite_passes_with_patch'] = rc == 0
         if rc != 0: rec['suite_output'] = o[-1500:]
         shutil.copy(demo, os.path.join(wt, demo_dir, 'zz_seeded_demo_test.go'))
-        rc, o = run('go test -vet=off -count=1 -run TestSeededDemo .', cwd=os.path.join(wt, demo_dir))
+        rc, o = run('go test ' + race + '-vet=off -count=1 -run TestSeededDemo .', cwd=os.path.join(wt, demo_dir))
         rec['demo_fails_with_patch'] = rc != 0
         rec['demo_output_with_patch'] = o[-1200:]
         run(['git', 'checkout', '--', '.'], cwd=wt)
-        rc, o = run('go test -vet=off -count=1 -run TestSeededDemo .', cwd=os.path.join(wt, demo_dir))
+        rc, o = run('go test ' + race + '-vet=off -count=1 -run TestSeededDemo .', cwd=os.path.join(wt, demo_dir))
         rec['demo_passes_without_patch'] = rc == 0
         if rc != 0: rec['demo_output_without_patch'] = o[-1200:]
     finally:
